@@ -22,6 +22,16 @@
 (* The strategy is the environment: one decision row per boundary, applied to both*)
 (* sides as a function of each side's own observable state.                       *)
 (*                                                                              *)
+(* Decision menu: idle / cancel the resting entry / liquidate / one entry (market,  *)
+(* limit or stop by its price relative to the current one) with a stop-loss and a  *)
+(* take-profit, either absolute (declared with the entry) or, with RelExits, placed*)
+(* in on_open_position at a distance from the price the strategy sees there.       *)
+(*                                                                              *)
+(* Known defect class of the tree (C12 finding "inner-gap-fill", InnerFix = FALSE): *)
+(* a fill in a minute inside a chunk whose raw open differs from the previous close;*)
+(* TLC exhibits it as a counter-example to Equiv, EquivKnown sets it aside, and with*)
+(* InnerFix = TRUE (the proposed repair) Equiv holds without exception.            *)
+(*                                                                              *)
 (* Property (independent of the loops' shape), at every chunk end:                *)
 (*   if the normal run has had <= 1 resting (LIMIT/STOP) fill in every trading    *)
 (*   window so far (and nothing was liquidated - impossible here), both sides     *)
